@@ -47,6 +47,33 @@ def rule_keylen(ctx, f):
                   detail="key bound %s >= %d" % ("unbounded" if ub is None else ub, need))
 
 
+def rule_objkey(ctx, f):
+    ctx.rule("C06-TABLE-objkey", "Algorithm 1: the per-object key handed to RC4 / AES-128 is the first min(n + 5, 16) bytes of the MD5 digest (n = file key length), "
+             "not the whole digest")
+    b = f.body("crypt::Decoder::decrypt")
+    if b is None:
+        ctx.lost("C06-TABLE-objkey", "crypt::Decoder::decrypt")
+        return
+    from flow import Flow
+    fl = Flow(b)
+    sites = [(bi, t) for bi, t in F.calls(b) if F.callee_name(t).endswith("Rc4::encrypt") or (t.get("callee", "").endswith("KeyIvInit::new_from_slices") and "Aes128" in (t.get("self_ty") or {}).get("s", ""))]
+    ctx.floor("C06-TABLE-objkey", len(sites), 2, "per-object cipher keys in Decoder::decrypt (RC4 and AES-128)")
+    for bi, t in sites:
+        l = arg_local(t, 0)
+        names = {last_seg(a[1]) for a in fl.origins(l) if a[0] == "call"} if l is not None else set()
+        consts = set()
+        for a in fl.origins(l) if l is not None else []:
+            if a[0] == "call" and last_seg(a[1]) == "min":
+                for x in a[3]["args"]:
+                    c = F.const_int(x)
+                    if c is not None:
+                        consts.add(c)
+        which = "Rc4" if "Rc4" in F.callee_name(t) else "Aes128"
+        ctx.check("min" in names and "compute" in names and 16 in consts, "C06-TABLE-objkey", "crypt::Decoder::decrypt#%s" % which,
+                  "the %s object key is not the digest cut to min(n + 5, 16) bytes (origins: %s, constants: %s): documents with file keys shorter than 88 bits "
+                  "decrypt to garbage" % (which, sorted(names), sorted(consts)), t["span"], detail="&digest[..(n + 5).min(16)]")
+
+
 def rule_order(ctx, f):
     ctx.rule("C06-G1", "in the stream decoder the decrypt call is applied once to the raw backend range and dominates the "
              "first filter application")
@@ -431,6 +458,7 @@ def run(ctx):
     f = F.load("default")
     ctx.count("bodies", len(f.bodies))
     rule_keylen(ctx, f)
+    rule_objkey(ctx, f)
     rule_order(ctx, f)
     rule_exempt(ctx, f)
     rule_identity(ctx, f)
